@@ -53,8 +53,8 @@ def run(ctx):
         base = []
         for nm, bs in corp[:: 4 if quick else 1]:
             base.append(ps.raw_case(bs, "corpus", forced=1901 if nm.startswith("ota/") else 0, name=nm, root_end=len(bs)))
-        base += [ps.doc_case(x, "grammar") for x in ps.grammar_docs(seed, T, 12 if quick else 150, stream=50)]
-        base += [ps.doc_case(x, "grammar-strict") for x in ps.grammar_docs(seed, T, 4 if quick else 50, stream=51, strict=True)]
+        base += [ps.doc_case(x, "grammar") for x in ps.grammar_docs(seed, T, 12 if quick else 60, stream=50)]
+        base += [ps.doc_case(x, "grammar-strict") for x in ps.grammar_docs(seed, T, 4 if quick else 20, stream=51, strict=True)]
         base += [ps.doc_case(x, "systematic") for x in pg.systematic_docs(T)][:: 6 if quick else 1]
         base += ps.nested_cases(T, depths=(3, 30))
         # only documents the parser accepts are "valid documents"
